@@ -43,6 +43,28 @@ CHECKS = {
         {"entry": M + "/sourcewrap.HarnessC20TransformWatch", "pkgs": SW, "must_reach": ["c20-watch-end"], "instrument": [M, M + "/sourcewrap"], "validate": 0},
         {"entry": M + "/sourcewrap.HarnessC20Blank", "pkgs": SW, "must_reach": ["c20-blank-end", "c20-blank-done"], "instrument": [M, M + "/sourcewrap"], "validate": 0},
     ]},
+    "C01": {"runs": [
+        {"entry": M + ".HarnessC01T1", "pkgs": CORE, "must_reach": ["c01-end"]},
+        {"entry": M + ".HarnessC01T2", "pkgs": CORE, "must_reach": ["c01-end"]},
+        {"entry": M + ".HarnessC01T3L1", "pkgs": CORE, "must_reach": ["c01-end"], "tiers": ["quick"]},
+        {"entry": M + ".HarnessC01T4L1", "pkgs": CORE, "must_reach": ["c01-end"], "tiers": ["quick"]},
+        {"entry": M + ".HarnessC01T5", "pkgs": CORE, "must_reach": ["c01-end"]},
+        {"entry": M + ".HarnessC01T6", "pkgs": CORE, "must_reach": ["c01-end"]},
+        {"entry": M + ".HarnessC01T7", "pkgs": CORE, "must_reach": ["c01-end"]},
+        {"entry": M + ".HarnessC01T3", "pkgs": CORE, "must_reach": ["c01-end"], "tiers": ["thorough"]},
+        {"entry": M + ".HarnessC01T4", "pkgs": CORE, "must_reach": ["c01-end"], "tiers": ["thorough"]},
+        {"entry": M + ".HarnessC01T2L3", "pkgs": CORE, "must_reach": ["c01-end"], "tiers": ["thorough"]},
+        {"entry": M + ".HarnessC01T7L3", "pkgs": CORE, "must_reach": ["c01-end"], "tiers": ["thorough"]},
+    ]},
+    "C02": {"runs": [
+        {"entry": M + ".HarnessC02History2", "pkgs": CORE, "must_reach": ["c02-hist-end"], "instrument": [M], "validate": 0},
+        {"entry": M + ".HarnessC01T4L1", "pkgs": CORE, "must_reach": ["c01-end"], "tiers": ["quick"]},
+        {"entry": M + ".HarnessC01T3L1", "pkgs": CORE, "must_reach": ["c01-end"], "tiers": ["quick"]},
+        {"entry": M + ".HarnessC01T6", "pkgs": CORE, "must_reach": ["c01-end"]},
+        {"entry": M + ".HarnessC02History3", "pkgs": CORE, "must_reach": ["c02-hist-end"], "instrument": [M], "validate": 0, "tiers": ["thorough"]},
+        {"entry": M + ".HarnessC01T4", "pkgs": CORE, "must_reach": ["c01-end"], "tiers": ["thorough"]},
+        {"entry": M + ".HarnessC01T3", "pkgs": CORE, "must_reach": ["c01-end"], "tiers": ["thorough"]},
+    ]},
     "C05": {"runs": [
         {"entry": M + ".HarnessC05Quick", "pkgs": CORE, "must_reach": ["c05-end"], "instrument": [M], "validate": 0},
         {"entry": M + ".HarnessC05Seq", "pkgs": CORE, "must_reach": ["c05-end"], "instrument": [M], "validate": 0},
